@@ -19,7 +19,7 @@ package service
 //@ property C07 roots (*service).processUnsubscribe, (*service).processSubscribe, (*github.com/mdzio/go-mqtt/message.SubackMessage).AddReturnCodes, (*github.com/mdzio/go-mqtt/message.SubackMessage).AddReturnCode, (*github.com/mdzio/go-mqtt/message.SubscribeMessage).Decode, (*github.com/mdzio/go-mqtt/message.UnsubscribeMessage).Decode, (*github.com/mdzio/go-mqtt/message.SubackMessage).Encode, (*github.com/mdzio/go-mqtt/topics.Manager).Subscribe, (*github.com/mdzio/go-mqtt/topics.Manager).Unsubscribe
 //@ property C11 roots (*Server).handleConnection, (*Server).getSession, (*github.com/mdzio/go-mqtt/message.ConnectMessage).Decode, (*github.com/mdzio/go-mqtt/message.ConnectMessage).decodeMessage, (*github.com/mdzio/go-mqtt/message.ConnectMessage).validClientID, (*github.com/mdzio/go-mqtt/message.ConnackMessage).Encode
 //@ property C05 roots (*buffer).Close, (*buffer).Read, (*buffer).ReadPeek, (*buffer).ReadWait, (*buffer).ReadCommit, (*buffer).Write, (*buffer).WriteWait, (*buffer).WriteCommit, (*buffer).waitForWriteSpace, (*buffer).ReadFrom, (*buffer).WriteTo, (*service).onPublish, getMessageBuffer, getConnectMessage, (*service).peekMessageSize, (*service).peekMessage, (*github.com/mdzio/go-mqtt/message.ConnectMessage).Decode
-//@ property C19 roots (*service).processIncoming, (*service).receiver, (timeoutReader).Read
+//@ property C19 roots (*service).processIncoming, (*service).receiver, (timeoutReader).Read, (*service).stop, (*github.com/mdzio/go-mqtt/sessions.Session).Update
 //@ property C01 roots (*service).onPublish, (*Server).Publish, (*service).processUnsubscribe
 //@ property C17 roots (*service).writeMessage, (*stat).increment, (*buffer).WriteTo, (*buffer).ReadPeek, (*buffer).ReadCommit, (*buffer).ReadFrom
 //@ property C17 callers (*buffer).Write, (*buffer).WriteWait, (*buffer).WriteCommit
